@@ -364,7 +364,7 @@ Proof.
   - cbn [eq_str has_struct] in *.
     destruct (Nat.ltb (length s) 2) eqn:E1; [discriminate|].
     destruct (starts_with (B "a") s) eqn:E2; [|discriminate]. cbn [orb negb] in H.
-    destruct (starts_with_inv _ _ E2) as (rest & ->). cbn [app] in *.
+    destruct (starts_with_inv _ _ E2) as (rest & ->). change (B "a") with ["a"%byte] in *. cbn [app] in *.
     destruct (bind_ok_true _ _ H) as (o & Ho & Hc). apply slice_ok in Ho. destruct Ho as (Ho & _ & _).
     cbn [length skipn] in Ho. replace (S (length rest) - 1) with (length rest) in Ho by lia.
     rewrite firstn_all in Ho. subst o. rewrite show_array. f_equal. apply IH; assumption.
@@ -372,11 +372,11 @@ Proof.
     destruct (Nat.ltb (length s) 4) eqn:E1; [discriminate|]. apply Nat.ltb_ge in E1.
     destruct (starts_with (B "a{") s) eqn:E2; [|discriminate].
     destruct (ends_with1 "}" s) eqn:E3; [|discriminate]. cbn [orb negb] in H.
-    destruct (starts_with_inv _ _ E2) as (rest & ->). cbn [app] in *.
+    destruct (starts_with_inv _ _ E2) as (rest & ->). change (B "a{") with ["a"%byte; "{"%byte] in *. cbn [app] in *.
     destruct (ends_with1_inv _ _ E3) as (p & Hp).
     destruct p as [|x [|y p']].
-    { cbn in Hp. inversion Hp as [[Ha Hb]]. }
-    { cbn in Hp. inversion Hp as [[Ha Hb]]. subst rest. cbn in E1. lia. }
+    { cbn in Hp. inversion Hp. }
+    { cbn in Hp. inversion Hp. }
     cbn [app] in Hp. inversion Hp as [[Hx Hy Hr]]. subst rest. clear Hp.
     destruct (bind_ok_true _ _ H) as (inner & Hi & H1). apply slice_ok in Hi. destruct Hi as (Hi & _ & _).
     cbn [length skipn] in Hi. rewrite app_length in Hi. cbn [length] in Hi.
@@ -386,12 +386,12 @@ Proof.
     destruct (bind_ok_true _ _ H2) as (a & Hk & H3). cbn [fst snd] in *.
     destruct a; [|discriminate].
     apply IHk in Hk; [|exact Hsk]. apply IHv in H3; [|exact Hsv].
-    subst p' ks vs. unfold show. cbn [write_as_string]. cbn [app]. rewrite <- app_assoc. reflexivity.
+    subst p' ks vs. reflexivity.
   - discriminate Hs.
   - cbn [eq_str has_struct] in *.
     destruct (Nat.ltb (length s) 2) eqn:E1; [discriminate|].
     destruct (starts_with (B "m") s) eqn:E2; [|discriminate]. cbn [orb negb] in H.
-    destruct (starts_with_inv _ _ E2) as (rest & ->). cbn [app] in *.
+    destruct (starts_with_inv _ _ E2) as (rest & ->). change (B "m") with ["m"%byte] in *. cbn [app] in *.
     destruct (bind_ok_true _ _ H) as (o & Ho & Hc). apply slice_ok in Ho. destruct Ho as (Ho & _ & _).
     cbn [length skipn] in Ho. replace (S (length rest) - 1) with (length rest) in Ho by lia.
     rewrite firstn_all in Ho. subst o. rewrite show_maybe. f_equal. apply IH; assumption.
